@@ -4,8 +4,14 @@
 #include <utility>
 #include "apbp.h"
 
+#ifdef TEAKRA_VERIF
+struct TeakraVerifAccess; // verification hook: read/seed private state
+#endif
 namespace Teakra {
 class DataChannel {
+#ifdef TEAKRA_VERIF
+    friend struct ::TeakraVerifAccess;
+#endif
 public:
     void Reset() {
         ready = false;
